@@ -36,6 +36,43 @@ def run(ctx):
     ctx.rule("C13.R8", "K4", "(= C05.R5) the accept callback survives a client that aborts before accept(): ECONNABORTED / EAGAIN / EWOULDBLOCK are swallowed (an exception there ends run(), the worker stops serving)")
     from .c05 import accept_errors
     accept_errors(ctx, "C13.R8")
+    ctx.rule("C13.R9", "K2", "connections parked in the poller when the serving loop ends are served or closed by the worker, not left to the process exit")
+    parked_connections_at_stop(ctx, "C13.R9")
+
+
+def parked_connections_at_stop(ctx, rid):
+    """When `alive` goes false (TERM, or max_requests reached in a pool thread) the poller still holds client sockets: fresh
+    connections accepted in the last round and not yet dispatched, and keep-alive connections.  `poller.close()` only discards
+    the selector; the sockets stay open until the process exits, and a client whose request is already in the socket buffer
+    gets a reset instead of an answer.  "Every accepted connection is eventually closed ... at shutdown" needs, between the end
+    of the serving loop and the return of run(), a pass over what is registered (`poller.get_map()`, `_keep`) that dispatches
+    or closes it.  Structural necessary condition; which of the two is the worker's choice."""
+    repo = ctx.repo
+    f = ctx.fn(repo.func("gunicorn.workers.gthread.ThreadWorker.run"))
+    g = f.cfg
+    loops = [w for w in walk_own(f.node) if isinstance(w, ast.While) and any(isinstance(x, ast.Attribute) and x.attr == "alive" for x in ast.walk(w.test))]
+    ctx.need(loops, rid + ": the serving loop of ThreadWorker.run was not found")
+    main = loops[0]
+    after = []
+    seen_main = False
+    for st in f.node.body:
+        if st is main or any(x is main for x in ast.walk(st)):
+            seen_main = True
+            continue
+        if seen_main:
+            after.append(st)
+    passes = []
+    for st in after:
+        for x in ast.walk(st):
+            if isinstance(x, (ast.For, ast.While, ast.ListComp, ast.GeneratorExp)):
+                txt = norm(x)
+                if ("get_map" in txt or "_keep" in txt) and (".close(" in txt or "callback(" in txt or "key.data" in txt or ".select(" in txt):
+                    passes.append(x)
+    closes_sel = [c for st in after for c in ast.walk(st) if isinstance(c, ast.Call) and isinstance(c.func, ast.Attribute) and c.func.attr == "close" and tail(c.func.value) == "poller"]
+    ctx.check(rid, bool(passes) or not closes_sel, key(f, "accepted-connections-abandoned-at-stop"), site(f, closes_sel[0] if closes_sel else main),
+              "after its serving loop ThreadWorker.run closes the selector and the listeners and waits for the running requests, but never looks at the client sockets still registered with the poller "
+              "(accepted in the last round and not yet dispatched, or parked for keep-alive): they are neither served nor closed, a request already sent on one of them is answered by the reset at "
+              "process exit -- at every recycling (max_requests) under load", "registered connections dispatched or closed before run() returns")
 
 
 def graceful_waits_for_all(ctx, rid):
